@@ -798,22 +798,40 @@ theorem nested_arg (n : Nat) (s : Str) : (nestedArg n s).length ≤ n ∧ nested
   exact ⟨by simp [List.length_take]; omega, List.take_prefix n s⟩
 
 /-- The 512-byte theorem at the level of one call of `irc.reply`, configuration lookups included: the
-values of `reply.mores.*` are those of the channel `_getTarget` designates, `withNotice` / `inPrivate` /
-`withNickPrefix` those of the channel `_makeReply` replies to (global values otherwise), for every
-combination of `to=`, `private=`, `notice=`, `prefixNick=` and every locale of the table. -/
-theorem fits_512_call (c : Call) (ha : c.action = false) (hT : TextsFine c.texts) (chunks : List Str) (s : Str)
-    (allowed : Nat) (s1 : Str)
+values of `reply.mores.*` are those `registry.getSpecific` returns for the (raw) target `_getTarget`
+designates, `withNotice` / `inPrivate` / `withNickPrefix` those of the channel `_makeReply` replies to
+(network values first, then the channel's, then the global ones), for every combination of `to=`,
+`private=`, `notice=`, `prefixNick=` — given here or leaked from a nested command — and every locale of
+the table; `noLengthCheck` (i.e. `action=True`, here or in the nested command) must not be set. -/
+theorem fits_512_call (c : Call) (hu : c.unchecked = false) (ha : c.action = false) (hT : TextsFine c.texts)
+    (chunks : List Str) (s : Str) (allowed : Nat) (s1 : Str)
     (hauto : c.cfg.moresLength = 0)
     (hprep : prepare c.env c.cfg s = some (allowed, s1, false))
     (hE : blen c.texts.emptyReply ≤ allowed)
     (hcontract : chunks.flatten = munge s1) (hne : ∀ x ∈ chunks, x ≠ [])
     (h4 : suffixReserve c.texts (blen s1) + (parse s1).maxSize + 4 ≤ allowed)
     (hclean : cleanWrap chunks s1 (allowed - suffixReserve c.texts (blen s1)) = true) :
-    ∃ now stored, replyCall c.env c.cfg chunks s = .sent now stored ∧
+    ∃ now stored, c.reply chunks s = .sent now stored ∧
       ∀ o ∈ now ++ stored.getD [], blen (wire c.env o) ≤ 512 := by
-  have hn := call_env_normal c ha
-  rw [replyCall_normal c.env hn.1]
+  have hn : Normal c.env := ⟨ha, rfl⟩
+  unfold Call.reply
+  simp only [hu, Bool.false_eq_true, ↓reduceIte]
   exact fits_512_clean c.env hn hT c.cfg chunks s allowed s1 hauto hprep hE hcontract hne h4 hclean
+
+/-- keywords of a nested command leak into the enclosing reply: after `[inner …]` replied with
+`private=True` the outer reply is private too; after `action=True` it is an unchecked ACTION -/
+theorem nested_keywords_leak (c : Call) (ki : Kw) (hi : c.inner = some ki) :
+    (ki.priv = some true → c.attrs.priv = some true) ∧
+    (ki.action = some true → c.unchecked = true ∧ c.action = true) := by
+  unfold Call.unchecked Call.action Call.attrs
+  rw [hi]
+  constructor
+  · intro h
+    simp only [Attrs.apply, Attrs.forward, Call.reset, h, orPy]
+    cases c.kw.priv <;> simp [orPy]
+  · intro h
+    simp only [Attrs.apply, Attrs.forward, Call.reset, h, orPy]
+    cases c.kw.action <;> cases c.kw.noLengthCheck <;> simp [orPy]
 
 /-- where a chunked reply is stored: under the `user@host` of `to` when it is a nick the bot knows,
 else under the requester's; `more_protocol_interleaved` then applies to THAT hostmask -/
@@ -826,17 +844,21 @@ theorem storeMask_cases (c : Call) :
 
 def exCall : Call :=
   { botPrefix := "test!u@h".toList, msgPrefix := "alice!al@host.a".toList, nick := "alice".toList,
-    msgTarget := "#chan".toList, msgIsChannel := true, to := some "bob".toList, pubTo := false, pubNick := false,
-    pubMsgTarget := true, chanTo := false, chanMsgTarget := true, toIsNick := true,
-    toHostmask := some "bob!bo@host.b".toList, notice := none, priv := none, prefixNick := none, action := false,
-    stripCtcp := true, texts := Texts.english, noticeWhenPrivate := true,
+    msgTarget := "@#chan".toList, msgChannel := some "#chan".toList, kw := { to := some "bob".toList },
+    inner := some { notice := some true }, toStripped := some "bob".toList, pubTo := false, pubNick := false,
+    pubMsgTarget := true, chanTo := false, chanMsgTarget := false, toIsNick := true,
+    toHostmask := some "bob!bo@host.b".toList, stripCtcp := true, texts := Texts.english, noticeWhenPrivate := true,
     confGlobal := ⟨false, false, true, false, false, true, 0, 50, 1⟩,
-    confChan := some ("#chan".toList, ⟨true, false, false, false, false, true, 60, 3, 2⟩) }
+    confChan := some ("#chan".toList, ⟨false, false, false, false, false, true, 60, 3, 2⟩),
+    confNet := { net := some ⟨false, false, false, false, false, true, 80, 7, 1⟩ } }
 
-/-- the reply to alice with `to='bob'` (a known nick) is stored under bob's `user@host`; the values of
-#chan are used: NOTICE, no nick prefix, length 60, maximum 3, instant 2 -/
-example : exCall.storeMask = "bo@host.b".toList ∧ exCall.cfg = ⟨60, 3, 2, true⟩ ∧
-    replyFrame exCall.env = (Gen.noticeCmd, "#chan".toList, []) ∧ exCall.action = false ∧ TextsFine exCall.texts := by
+/-- alice, on `@#chan` (STATUSMSG), runs an outer command with `to='bob'` (a known nick) around a nested
+one that replied with `notice=True`: the stack is stored under bob's `user@host`; the notice leaks; the
+raw target `@#chan` is not a channel for the registry, so `reply.mores.*` are the NETWORK's values
+(80, 7, 1) and the values set for #chan are ignored (the network has values set) -/
+example : exCall.storeMask = "bo@host.b".toList ∧ exCall.cfg = ⟨80, 7, 1, true⟩ ∧
+    replyFrame exCall.env = (Gen.noticeCmd, "@#chan".toList, []) ∧ exCall.unchecked = false ∧
+    exCall.action = false ∧ TextsFine exCall.texts := by
   decide
 
 /-! ## the bot's belief of its own hostmask and the hostmask the server relays with -/
